@@ -81,9 +81,13 @@ def main(argv):
             return 1
         gen = native.Gen(g)
 
+        sofar = {}
+
         def source(name, kind, gen=gen):
             cg = getattr(c, 'native_gens', {}).get(name)
-            return cg(gen) if cg else gen.of(kind, hint='name' if 'name' in name else None)
+            v = cg(gen, sofar) if cg else gen.of(kind, hint='name' if 'name' in name else None)
+            sofar[name] = v
+            return v
         ni = native.NativeInputs(c, source)
         vals = ni.build_all()
         out = native.run_case(c, vals, ni.log)
